@@ -142,6 +142,33 @@ OnlyNeeded(s, coneBegin) ==
      \A i \in 1..Len(s.inv) : s.inv[i].n \in coneBegin \cup coneEnd
 
 ---------------------------------------------------------------------------
+(* C09: per-subscription automaton (Fresh -> Live -> Dead) driven by reference facts.  *)
+(* Evaluated when all handlers of the round have run (status "handlers", runq empty).  *)
+PrevBefore(s, o, tok) ==
+  IF o <= Len(s.subsAtBegin) /\ \E i \in 1..Len(s.subsAtBegin[o]) : s.subsAtBegin[o][i].tok = tok
+  THEN s.subsAtBegin[o][CHOOSE i \in 1..Len(s.subsAtBegin[o]) : s.subsAtBegin[o][i].tok = tok].prev
+  ELSE "never"
+\* the update subscription (o, h) must receive in this round: <<kind, value>> or <<"", NoVal>>
+RefUpdate(s, o, h) ==
+  LET n == s.onode[o]
+      pb == PrevBefore(s, o, h.tok) IN
+  IF ~(h.at < s.num) \/ pb = "Invalidated" THEN <<"", NoVal>>
+  ELSE IF DeadRef(s, n) THEN <<"Invalidated", NoVal>>
+  ELSE IF pb = "never" THEN (IF Value(s, n) # NoVal THEN <<"Necessary", Value(s, n)>> ELSE <<"", NoVal>>)
+  ELSE IF s.lastChg[n] = s.round THEN <<"Changed", Value(s, n)>>
+  ELSE <<"", NoVal>>
+RefDlvSet(s) ==
+  UNION {{[o |-> o, t |-> s.osubs[o][i].tok, u |-> RefUpdate(s, o, s.osubs[o][i])[1],
+           v |-> RefUpdate(s, o, s.osubs[o][i])[2]] : i \in 1..Len(s.osubs[o])} :
+         o \in {x \in 1..s.no : s.ostate[x] = "inuse"}}
+RefDlv(s) == {d \in RefDlvSet(s) : d.u # ""}
+DlvSet(s) == {[o |-> s.dlv[i].o, t |-> s.dlv[i].t, u |-> s.dlv[i].u, v |-> s.dlv[i].v] : i \in 1..Len(s.dlv)}
+ExactUpdates(s) ==
+  (Ok(s) /\ s.status = "handlers" /\ s.runq = <<>>) =>
+     /\ DlvSet(s) = RefDlv(s)
+     /\ Cardinality(DlvSet(s)) = Len(s.dlv)      \* nothing delivered twice
+
+---------------------------------------------------------------------------
 (* C11: audit of the bookkeeping at quiescent points                        *)
 AuditEdges(s) ==
   \A n \in 1..s.n : (Alive(s, n) /\ Nec(s, n) /\ s.valid[n]) =>
